@@ -15,7 +15,7 @@ from vlib.mc import enum as E
 PROPERTY = 'C11'
 LEVEL = 'exploration'
 ENGINE = 'C'
-TECHNIQUE = ('bounded-exhaustive enumeration of strings from address grammars, '
+TECHNIQUE = ('stateless bounded model checking: complete enumeration of strings from address grammars, '
              'three-way reference classification cross-checked with ipaddress')
 LEVEL_TEXT = ('All dotted quads with 1..5 parts over 15 octet spellings, IPv6 '
               'texts with 1..9 groups, "::" at every position, embedded IPv4 '
